@@ -35,6 +35,16 @@ def models(tier):
                                       [("m", 0, n) for n in ("rq:3:own", "rq:3:own:missing", "rq:4:own", "rq:3:foreign", "dwr")] +
                                       [("m", 1, n) for n in ("rq:3:own", "rq:3:own:missing")] + [("tick", 2)],
                                       MONS, max_socks=2, prelude=[("accept",), ("m", 0, "cer_p0"), ("accept",), ("m", 1, "cer_p1")]))
+    nr = copy.deepcopy(one)
+    nr["apps"][0]["behaviour"] = "raise_notroutable"
+    out.append(monitors.ScenarioModel("one-app-handler-fails-with-the-library's-NotRoutable", nr,
+                                      [("m", 0, n) for n in ("rq:3:own", "rq:3:own:missing", "rq:4:own", "dwr")] + [("tick", 2)],
+                                      MONS, max_socks=1, prelude=[("accept",), ("m", 0, "cer_p0")]))
+    # several requests in one network read: each answer must still say what was wrong with *its* request
+    out.append(monitors.ScenarioModel("requests-in-one-read", CFG3,
+                                      [("b", 0, a, b) for a in ("rq:3:own:missing", "rq:3:own", "rq:9:own", "rq:3:foreign:missing")
+                                       for b in ("rq:3:own:missing", "rq:3:own", "rq:4:r2", "rq:3:own:alias")] + [("ans", 0), ("ans", 1)],
+                                      MONS, max_socks=1, prelude=[("accept",), ("m", 0, "cer_p0")]))
     two = copy.deepcopy(CFG3)
     two["apps"] = [{"id": 3, "acct": True, "peers": [0, 1]}, {"id": 4, "auth": True, "peers": [1]}]
     two["peers"][1]["realm"] = "realm2.example"
